@@ -37,7 +37,7 @@ BREAKING = [
  ('orbitdb-ac-key-binding-failopen', ['C03'], 'accesscontroller/orbitdb/accesscontroller_orbitdb.go', '; !ok || !bytes.Equal(keyed.GetKey(), identity.PublicKey) {', '; ok && len(keyed.GetKey()) > 0 && !bytes.Equal(keyed.GetKey(), identity.PublicKey) && false {'),
  ('createstore-caller-ac', ['C03', 'C14'], 'baseorbitdb/orbitdb.go', '\t\tAccessController:  accessController,\n', '\t\tAccessController:  func() accesscontroller.Interface { _ = accessController; return nil }(),\n'),
  ('replicator-uses-announced-entry', ['C04', 'C12'], RP, '\tr.muBuffer.Lock()\n\tr.buffer = append(r.buffer, l)\n', '\tif pe, ok := item.(*processEntry); ok {\n\t\tif l2, err2 := ipfslog.NewLog(r.store.IPFS(), r.store.Identity(), &ipfslog.LogOptions{ID: r.store.OpLog().GetID(), AccessController: r.store.AccessController(), Entries: entry.NewOrderedMapFromEntries([]iface.IPFSLogEntry{pe.entry})}); err2 == nil {\n\t\t\tl = l2\n\t\t}\n\t}\n\tr.muBuffer.Lock()\n\tr.buffer = append(r.buffer, l)\n'),
- ('sync-skips-replicator', ['C02'], BS, '\tgo b.Replicator().Load(ctx, heads)\n\n\treturn nil', '\treturn nil'),
+ ('sync-skips-replicator', ['C02'], BS, '\tgo b.Replicator().Load(ctx, verified)\n\n\treturn nil', '\treturn nil'),
  ('exchange-sends-empty-heads', ['C02'], BS, '\t\tHeads:   heads,\n\t}\n\n\tpayload, err := b.messageMarshaler.Marshal(msg)\n\tif err != nil {\n\t\treturn fmt.Errorf("unable to marshall message: %w", err)', '\t\tHeads:   []*entry.Entry{},\n\t}\n\t_ = heads\n\n\tpayload, err := b.messageMarshaler.Marshal(msg)\n\tif err != nil {\n\t\treturn fmt.Errorf("unable to marshall message: %w", err)'),
  ('replicator-drops-next-links', ['C02'], RP, '\t\tnextValues = append(nextValues, e.GetNext()...)\n', ''),
  ('listener-filter-removed', ['C09'], BS, 'if evt.Address == nil || evt.Address.String() != b.Address().String() {', 'if evt.Address == nil {'),
